@@ -1,0 +1,95 @@
+//go:build verif
+
+// Contracts for the verification machinery in /verif (comment only, no code).
+// Language: /verif/DESIGN.md section 3.1.  anc(x, q): q is x or an ancestor of x along Queue.parent.
+package objects
+
+//@ chain Queue.parent
+
+// machine-arithmetic assumption (unchecked, reported): counters stay far below 2^64; maps set by the constructors are not nil
+//@ global forall q *Queue :: q.runningApps < 4611686018427387904 && q.allocatingAcceptedApps != nil
+
+//@ unique Queue.allocatingAcceptedApps props C11
+
+// ================================================================ C11: max-applications gate
+
+// room at one queue: no maximum, already tracked as allocating, or still room for one more
+//@ spec roomHere(q *Queue, appID string) bool = q.maxRunningApps == 0 || q.allocatingAcceptedApps[appID] || q.runningApps + len(q.allocatingAcceptedApps) + 1 <= q.maxRunningApps
+
+//@ func (sq *Queue) canRunApp(appID string) (ok bool)
+//@   props C11
+//@   pure
+//@   ensures[gate] ok ==> (forall q *Queue :: anc(sq, q) ==> roomHere(q, appID))
+//@   ensures[complete] !ok ==> (exists q *Queue :: anc(sq, q) && !roomHere(q, appID))
+
+//@ func (sq *Queue) incRunningApps(appID string)
+//@   props C11
+//@   assigns all Queue.runningApps, all Queue.allocatingAcceptedApps[*]
+//@   ensures[count] forall q *Queue :: anc(sq, q) ==> q.runningApps == ((q.maxRunningApps > 0 && old(q.runningApps) + 1 > q.maxRunningApps) ? q.maxRunningApps : old(q.runningApps) + 1)
+//@   ensures[bounded] forall q *Queue :: anc(sq, q) && q.maxRunningApps > 0 ==> q.runningApps <= q.maxRunningApps
+//@   ensures[untrack] forall q *Queue :: anc(sq, q) ==> !q.allocatingAcceptedApps[appID]
+//@   ensures[frame] forall q *Queue :: !anc(sq, q) ==> q.runningApps == old(q.runningApps)
+
+//@ func (sq *Queue) decRunningApps()
+//@   props C11
+//@   assigns all Queue.runningApps
+//@   ensures[count] forall q *Queue :: anc(sq, q) ==> q.runningApps == (old(q.runningApps) > 0 ? old(q.runningApps) - 1 : 0)
+//@   ensures[frame] forall q *Queue :: !anc(sq, q) ==> q.runningApps == old(q.runningApps)
+
+//@ func (sq *Queue) setAllocatingAccepted(appID string)
+//@   props C11
+//@   assigns all Queue.allocatingAcceptedApps[*]
+//@   ensures[track] forall q *Queue :: anc(sq, q) ==> q.allocatingAcceptedApps[appID]
+
+// ---------------------------------------------------------------- application state names (also C10)
+
+//@ spec stateName(i int) string = i == 0 ? "New" : i == 1 ? "Accepted" : i == 2 ? "Running" : i == 3 ? "Rejected" : i == 4 ? "Completing" : i == 5 ? "Completed" : i == 6 ? "Failing" : i == 7 ? "Failed" : i == 8 ? "Expired" : "Resuming"
+//@ spec appState(a *Application) string = a.stateMachine.current
+//@ spec appIsAccepted(a *Application) bool = a.stateMachine.current == "Accepted"
+
+//@ func (as applicationState) String() (s string)
+//@   props C10 C11
+//@   pure
+//@   requires 0 <= as && as <= 9
+//@   ensures s == stateName(as)
+
+//@ func (sa *Application) IsAccepted() (r bool)
+//@   props C11 C10
+//@   pure
+//@   mode nopanic=off
+//@   ensures r == appIsAccepted(sa)
+
+// the gate: an Accepted application (not yet counted as running) is only tried when the queue gate
+// and the user/group gate both said yes in this very iteration
+//@ func (sq *Queue) TryAllocate(iterator func() NodeIterator, fullIterator func() NodeIterator, getnode func(string) *Node, allowPreemption bool) (res *AllocationResult)
+//@   props C11 C05
+//@   sweep
+//@   mode nopanic=off
+//@   at[gate] call objects.Application.tryAllocate#1: assert !appIsAccepted(arg0) || (runnableInQueue && runnableByUserLimit)
+//@   at[room] call objects.Application.tryAllocate#1: assert !appIsAccepted(arg0) || (forall q *Queue :: anc(sq, q) ==> roomHere(q, arg0.ApplicationID))
+
+//@ func (sq *Queue) appExists(appID string) (ok bool)
+//@   props C11
+//@   pure
+//@   mode nopanic=off
+//@   ensures ok == (appID in sq.applications)
+
+//@ func (sq *Queue) clearAllocatingAccepted(appID string)
+//@   props C11
+//@   assigns all Queue.allocatingAcceptedApps[*]
+//@   ensures[untrack] forall q *Queue :: anc(sq, q) ==> !q.allocatingAcceptedApps[appID]
+//@   ensures[frame] forall q *Queue, a string :: !anc(sq, q) ==> q.allocatingAcceptedApps[a] == old(q.allocatingAcceptedApps[a])
+
+// a removed application is no longer reported as allocating by the leaf or any ancestor
+//@ func (sq *Queue) RemoveApplication(app *Application)
+//@   props C11
+//@   sweep
+//@   mode nopanic=off
+//@   ensures[untracked] old(app.ApplicationID in sq.applications) ==> (forall q *Queue :: anc(sq, q) ==> !q.allocatingAcceptedApps[app.ApplicationID])
+
+// same gate on the reserved path: stated from the property (room on every ancestor), implied by canRunApp's contract
+//@ func (sq *Queue) TryReservedAllocate(iterator func() NodeIterator) (res *AllocationResult)
+//@   props C11 C05
+//@   sweep
+//@   mode nopanic=off
+//@   at[gate] call objects.Application.tryReservedAllocate#1: assert !appIsAccepted(arg0) || (forall q *Queue :: anc(sq, q) ==> roomHere(q, appID))
